@@ -146,8 +146,11 @@ def cases(tier, rng):
 
 
 def oracle(case, lines):
-    if any(l.startswith(("PANIC", "ABORT", "TIMEOUT")) for l in lines):
-        return "panic/abort"
+    for op, l in zip(case.ops, lines[1:]):
+        if l.startswith("TIMEOUT"):
+            return f"`{op}` never returned (the polling thread is blocked: no answer for 20 s) — recv/send hangs on the peer's end"
+        if l.startswith(("PANIC", "ABORT")):
+            return f"panic/abort in `{op}`"
     if not case.expect:
         return None
     t, cutname, event, registered, nby = case.expect
